@@ -60,6 +60,51 @@ pub fn sharing_program_kinds(l: usize, closure: bool, k: usize, kinds: usize) ->
     )
 }
 
+/// A wide object (n fields, objects at the positions `pattern` selects) or a closure capturing n
+/// such values is used k times.  Every use but the last unpacks it while it is still shared, consumes
+/// the children, and is followed by the allocation of a list longer than anything the use can have
+/// released, so that a child whose count was not raised
+/// while unpacking is released and its block re-used before the next use reads it.  No print: the
+/// program also runs on RISC-V; the result carries every field of every use.
+pub fn wide_shared_program(n: usize, closure: bool, k: usize, pattern: usize) -> String {
+    let is_obj = |i: usize| match pattern {
+        0 => true,
+        1 => i % 2 == 0,
+        2 => i % 2 == 1,
+        3 => i == 0,
+        _ => i + 1 == n,
+    };
+    let fields: Vec<String> = (0..n).map(|i| format!("f{i}: {}", if is_obj(i) { "Box" } else { "i64" })).collect();
+    let values: Vec<String> = (0..n).map(|i| if is_obj(i) { format!("B(a0 + {})", 3 * i + 1) } else { format!("a0 + {}", 3 * i + 1) }).collect();
+    let mut sum = "j".to_string();
+    for i in (0..n).rev() {
+        sum = if is_obj(i) { format!("(f{i}.case {{ B(x) => x * {} }}) + ({sum})", i + 2) } else { format!("(f{i} * {}) + ({sum})", i + 2) };
+    }
+    let mut main = String::new();
+    let (decl, make, use_): (String, String, Box<dyn Fn(usize) -> String>) = if closure {
+        for (i, v) in values.iter().enumerate() {
+            main.push_str(&format!("  let f{i}: {} = {v};\n", if is_obj(i) { "Box" } else { "i64" }));
+        }
+        ("codata Fun { ap(j: i64): i64 }\n".to_string(), format!("new {{ ap(j) => {sum} }}"), Box::new(|j| format!("w.ap({j})")))
+    } else {
+        (
+            format!("data Wide {{ W({}) }}\ndef take(w: Wide, j: i64): i64 {{ w.case {{ W({}) => {sum} }} }}\n", fields.join(", "), (0..n).map(|i| format!("f{i}")).collect::<Vec<_>>().join(", ")),
+            format!("W({})", values.join(", ")),
+            Box::new(|j| format!("take(w, {j})")),
+        )
+    };
+    main.push_str(&format!("  let w: {} = {make};\n", if closure { "Fun" } else { "Wide" }));
+    let mut total = "0".to_string();
+    for j in 0..k {
+        // more cells than the use can have released: every released block is written again
+        main.push_str(&format!("  let r{j}: i64 = {};\n  let t{j}: i64 = sum(fill({}, {}, Nil), 0);\n", use_(j), 2 * n + 12, 100000 * (j + 1)));
+        total = format!("(r{j} + t{j}) + ({total})");
+    }
+    format!(
+        "data Box {{ B(x: i64) }}\ndata Lst {{ Nil, Cons(h: i64, t: Lst) }}\ndef fill(m: i64, v: i64, acc: Lst): Lst {{ if m == 0 {{ acc }} else {{ fill(m - 1, v + 1, Cons(v, acc)) }} }}\ndef sum(l: Lst, s: i64): i64 {{ l.case {{ Nil => s, Cons(h, t) => sum(t, s + h) }} }}\n{decl}def main(a0: i64): i64 {{\n{main}  {total}\n}}\n"
+    )
+}
+
 pub fn run(ctx: &Ctx, acc: &mut Acc, cfg: &EmuConfig, share_of_budget: u32) {
     let prop = ctx.prop.as_str();
     let isas = backend::isas_for(prop);
@@ -95,6 +140,35 @@ pub fn run(ctx: &Ctx, acc: &mut Acc, cfg: &EmuConfig, share_of_budget: u32) {
                     }
                 }
               }
+            }
+        }
+    }
+    // (c) wide shared objects and closures whose children are consumed between the uses
+    'wide: for n in 1..=9usize {
+        for closure in [false, true] {
+            for k in 2..=3usize {
+                for pattern in 0..5usize {
+                    idx += 1;
+                    if idx % ctx.nshards != ctx.shard {
+                        continue;
+                    }
+                    if t0.elapsed() > deadline * 2 {
+                        break 'wide;
+                    }
+                    let src = wide_shared_program(n, closure, k, pattern);
+                    let Ok(st) = stages(&src) else {
+                        acc.infra(format!("directed wide-object program does not compile (n={n} closure={closure} k={k} pattern={pattern})"));
+                        continue;
+                    };
+                    for isa in &isas {
+                        acc.evaluations += 1;
+                        let c = LinCase { linear: &st.linear, args: &[5], origin: format!("directed wide sharing: {} of {n} values (pattern {pattern}) used {k} times", if closure { "closure" } else { "object" }), src: Some(&src) };
+                        if backend::judge_linear(prop, *isa, acc, &c, cfg) {
+                            acc.count("directed_wide_sharing_programs");
+                            acc.nontrivial(crate::rng::hash_str(&src) ^ *isa as u64);
+                        }
+                    }
+                }
             }
         }
     }
